@@ -183,8 +183,17 @@ def execute(case):
             if case['knobs'].get('steady'):
                 # refusals of the steady-state search (and marginal accept/refuse flips) are not value differences
                 conv = {'ok', 'ConvergenceError', 'ValueError', 'NoEquilibriumError'}
-            if {r_on['outcome'], r_off['outcome']} <= conv:
+            both_refuse = r_on['outcome'] != 'ok' and r_off['outcome'] != 'ok' and \
+                'ValueError' in r_on.get('exc_mro', []) and 'ValueError' in r_off.get('exc_mro', []) and \
+                r_on.get('failed_period') == r_off.get('failed_period')
+            if {r_on['outcome'], r_off['outcome']} <= conv or \
+                    ('ConvergenceError' in (r_on['outcome'], r_off['outcome']) and 'ok' not in (r_on['outcome'], r_off['outcome'])):
+                # (a twin that cannot be iterated to the tolerance yields no values to compare, whatever stops the other)
                 st['inconclusive_nonconvergent'] = 1
+            elif both_refuse:
+                # both twins stop at the same period with an error of the ValueError family (which member of the
+                # family depends on whether the failing variable is iterated or derived): no value differs
+                st['probes']['both_twins_refuse_at_same_period'] = 1
             else:
                 viol.append(core.violation(ID, 'outcome-differs', 'outcome-differs:%s/%s' % (r_on['outcome'], r_off['outcome']),
                                            reduced=r_on['outcome'], unreduced=r_off['outcome'],
